@@ -209,7 +209,7 @@ class Mon:
 
 # every VALUE writes its fields with placeholders of its own letter (i: id, c: class, t/u: other attributes, x: text) followed by the written index
 GROUPED = {'i': ['${1:i1}', 'p${1:i1}-${2:i2}', '${2:i2}${1:i1}', '${3:i3}'], 'c': ['${1:c1}', 'k ${1:c1}', '${1:c1} ${2:c2}', '${3:c3}-w', '${2:c2} m ${1:c1}'],
-           't': ['${1:t1}', '${2:t2} ${1:t1}', 'a${4:t4}'], 'u': ['${1:u1}', '${1:u1}${1:u1}'], 'x': ['${1:x1}', 'a ${2:x2} b ${1:x1}']}
+           't': ['${1:t1}', '${2:t2} ${1:t1}', 'a${4:t4}'], 'u': ['${1:u1}', '${1:u1}${1:u1}'], 'x': ['${1:x1}', 'a ${2:x2} b ${1:x1}', 'a ${1:x1}\nb ${1:x1}', '${2:x2}\n${1:x1} c\n${3:x3}']}      # (a value may span several lines: it is still ONE value)
 GROUPED_FORMS = ['E[id="I" class="C"]', 'E[class="C" id="I"]', 'E[id="I" class="C" t="T"]', 'E[t="T" id="I" u="U" class="C"]', 'E#j[class="C" t="T"]', 'E.k[id="I"]{X}', 'E[class="C"]{X}',
                  'E[id="I" class="C"]>p[t="T"]', 'x-p[t="T"]>E[id="I" class="C"]+q[u="U"]', 'E[id="I"]+E[class="C"]', 'E[id="I" class="C"]*2']
 RE_GMARK = re.compile('⟦(\\d+):([ictux])(\\d)⟧')
